@@ -39,3 +39,25 @@ def dag(a):
 def bfs(a):
     m = mk_matrix(a['m'])
     return tolist(breadth_first_search(m, int(a['source'])))
+
+
+def sequence(a):
+    """Several path functions called one after the other on ONE matrix object (a call must not disturb the next one)."""
+    m = mk_matrix(a['m'])
+    out = []
+    for step in a['steps']:
+        kind = step['kind']
+        try:
+            if kind == 'dist':
+                out.append({'ok': tolist(get_distances(m, _src(step['source'])))})
+            elif kind == 'sp':
+                p = get_shortest_path(m, _src(step['source']))
+                out.append({'ok': csr_edges(p)})
+            elif kind == 'dag':
+                p = get_dag(m, order=np.array(step['order'], dtype=int))
+                out.append({'ok': csr_edges(p)})
+            else:
+                out.append({'ok': tolist(breadth_first_search(m, int(step['source'])))})
+        except Exception as e:  # noqa
+            out.append({'err': type(e).__name__})
+    return out
